@@ -103,12 +103,12 @@ Proof. exact found_field_raw_is_slice. Qed.
 Print Assumptions C07_found_field_raw_is_slice.
 
 (* The byte-level algorithm of Value.getByPath AS CODED (model/ProtoGenericAlg.v) does not refine the spec:
-   machine-checked witnesses of the recorded findings 701-704 *)
+   machine-checked witnesses of the recorded findings 701-704 (flags all off = the pinned tree) *)
 Theorem C07_getByPath_as_coded_refuted :
   (exists m p, wf_msg S_w [77] m = true /\ (exists l t n v, plookup_root S_w [77] m p = LFound l t n v) /\
-               gbp S_w [77] (encode_msg m) p = GPanicA) /\
+               gbp no_fixes S_w [77] (encode_msg m) p = GPanicA) /\
   (exists m p ty raw, wf_msg S_w [77] m = true /\ plookup_root S_w [77] m p = LNotFound true /\
-               gbp S_w [77] (encode_msg m) p = GFoundA ty raw).
+               gbp no_fixes S_w [77] (encode_msg m) p = GFoundA ty raw 0).
 Proof.
   split.
   - exists [(1, VList true [VScalar 6 (2 ^ 64 - 1)])], [PField 1].
@@ -120,6 +120,23 @@ Proof.
     split; [exact H1|]. split; [exact H2|exact H3].
 Qed.
 Print Assumptions C07_getByPath_as_coded_refuted.
+
+(* ... and the same model with every recorded repair applied (the flags of ProtoGenericAlg.fixes mirror the
+   proposed fix commits) agrees with the spec on those witnesses *)
+Theorem C07_getByPath_repaired_on_witnesses :
+  gbp all_fixes S_w [77] (encode_msg [(1, VList true [VScalar 6 (2 ^ 64 - 1)])]) [PField 1]
+    = GFoundA 19 (encode_msg [(1, VList true [VScalar 6 (2 ^ 64 - 1)])]) 1 /\
+  (let m := [(2, VList true [VScalar 5 7; VScalar 5 8]); (3, VList false [VBytes 9 [120]])] in
+   gbp all_fixes S_w [77] (encode_msg m) [PField 2; PIndex (-1)] = GNotFoundA /\
+   gbp all_fixes S_w [77] (encode_msg m) [PField 2; PIndex 2] = GNotFoundA /\
+   gbp all_fixes S_w [77] (encode_msg m) [PField 2; PIndex 1] = GFoundA 5 [8] 0) /\
+  (let m := [(3, VList false [VBytes 9 [120; 121]; VBytes 9 [122]])] in
+   gbp all_fixes S_w [77] (encode_msg m) [PField 3; PIndex 0] = GFoundA 9 [2; 120; 121] 0 /\
+   gbp all_fixes S_w [77] (encode_msg m) [PField 3; PIndex 2] = GNotFoundA) /\
+  (let m' := [(4, VMsg [(3, VList false [VBytes 9 [120]])]); (3, VList false [VBytes 9 [121]])] in
+   gbp all_fixes S_w [77] (encode_msg m') [PField 4; PField 3] = GFoundA 19 [26; 1; 120] 1).
+Proof. exact gbp_repaired_on_witnesses. Qed.
+Print Assumptions C07_getByPath_repaired_on_witnesses.
 
 (* non-vacuity: a concrete well-formed message with every field shape, its encoding, and lookups into it *)
 Definition S_ex : schema :=
